@@ -659,7 +659,11 @@ func (x *emitExec) run(sc scenarioT) {
 			x.stateEvent(parent, "preappend") // the original must be unaffected by anything done to the clone so far
 			pan := guard(func() { x.ems[parent].Append(x.ems[child]) })
 			x.emit(map[string]interface{}{"k": "append", "id": parent, "from": child, "refused": pan != ""})
-			x.stateEvent(parent, "append")
+			if pan != "" {
+				x.stateEvent(parent, "append_refused") // refused as a whole: bytes, length, PC, flags, labels untouched (C16, C19)
+			} else {
+				x.stateEvent(parent, "append")
+			}
 			cur = parent
 			if pan != "" {
 				x.twinOK = false
